@@ -1,2 +1,2 @@
 SPECIFICATION TSpec
-INVARIANTS RLayRoundTrip RLayReencode RLaybReencode RLaypRoundTrip RLvmAgree RLvmSetGet RNtsKinds RNtsValues RNtsAuth RNtsAligned RSck RCrypt
+INVARIANTS RLayRoundTrip RLayReencode RLaybReencode RLaypRoundTrip RLvmAgree RLvmSetGet RNtsKinds RNtsValues RNtsAuth RNtsAligned RSck RCrypt RHistRoundTrip RResultsStable
